@@ -12,6 +12,9 @@ package main
 // of the response, payload tag = request it was produced for + response
 // number) and whether the message reached the connection's default handler.
 //
+// Responses may also arrive in blocks (Block2) or back to back: c03bw.go has the script events and the
+// families; such a case is emitted as BwCase and replayed on the block-wise layer machine (Token/BwModel.v).
+//
 // Synchronisation is by witnesses only: a call counts as issued when its
 // request is on the wire or it returned; an injected message is waited for
 // through a wrapper around the connection's processReceivedMessage; the calls
@@ -277,6 +280,7 @@ type c3Run struct {
 	processed  chan struct{}
 	mu         sync.Mutex
 	fell       int
+	panicked   string // a panic of the library on the receive path (guarded by mu)
 	calls      map[int]*c3Call
 	reg        map[uint64]int // bookkeeping used only to know which calls to wait for
 	slotsCON   map[int]bool
@@ -331,6 +335,7 @@ func (r *c3Run) setup() {
 	}
 	cfg.GetMID = func() int32 { return 0x2000 }
 	cfg.ProcessReceivedMessage = func(req *pool.Message, cc *client.Conn, h config.HandlerFunc[*client.Conn]) {
+		defer r.receivePathDone()
 		if r.obsWriter {
 			win := r.openWindow(req)
 			cc.ProcessReceivedMessageWithHandler(req, func(w *responsewriter.ResponseWriter[*client.Conn], m *pool.Message) {
@@ -342,7 +347,6 @@ func (r *c3Run) setup() {
 		} else {
 			cc.ProcessReceivedMessageWithHandler(req, h)
 		}
-		r.processed <- struct{}{}
 	}
 	var opts []client.Option
 	if r.bw {
@@ -408,6 +412,7 @@ func (r *c3Run) setupTCP() {
 	v := reflect.ValueOf(r.tcc).Elem()
 	pf := (*func(*pool.Message, *tcpclient.Conn, tcpclient.HandlerFunc))(unsafe.Pointer(v.FieldByName("processReceivedMessage").UnsafeAddr()))
 	*pf = func(req *pool.Message, cc *tcpclient.Conn, h tcpclient.HandlerFunc) {
+		defer r.receivePathDone()
 		if r.obsWriter {
 			win := r.openWindow(req)
 			cc.ProcessReceivedMessageWithHandler(req, func(w *responsewriter.ResponseWriter[*tcpclient.Conn], m *pool.Message) {
@@ -419,7 +424,6 @@ func (r *c3Run) setupTCP() {
 		} else {
 			cc.ProcessReceivedMessageWithHandler(req, h)
 		}
-		r.processed <- struct{}{}
 	}
 	csm := make(chan struct{}, 4)
 	r.tcc.SetTCPSignalReceivedHandler(func(c codes.Code) {
@@ -481,6 +485,17 @@ func (c3RelTracker) Reacquired(_ *pool.Pool, m *pool.Message) {
 		}
 		r.winMu.Unlock()
 	}
+}
+
+// receivePathDone: the receive path has finished with one message (witness). A panic of the library on the
+// receive path is an observable of the case (class hang/panic), not a crash of the harness.
+func (r *c3Run) receivePathDone() {
+	if x := recover(); x != nil {
+		r.mu.Lock()
+		r.panicked = fmt.Sprintf("the receive path panicked: %v", x)
+		r.mu.Unlock()
+	}
+	r.processed <- struct{}{}
 }
 
 func (r *c3Run) openWindow(req *pool.Message) *c3Window {
@@ -1269,6 +1284,11 @@ func (r *c3Run) run() string {
 	r.setup()
 	defer r.teardown()
 	for _, o := range r.sc.ops {
+		r.mu.Lock()
+		if r.panicked != "" && r.bad == "" {
+			r.bad = r.panicked
+		}
+		r.mu.Unlock()
 		if r.bad != "" || r.hung {
 			break
 		}
@@ -1331,6 +1351,11 @@ func (r *c3Run) run() string {
 		}
 		r.item(fmt.Sprintf("%sCancel %d", r.kp(), r.emitID(cid)), rets, r.takeFell())
 	}
+	r.mu.Lock()
+	if r.panicked != "" && r.bad == "" {
+		r.bad = r.panicked
+	}
+	r.mu.Unlock()
 	if r.bad != "" {
 		if r.bwcase {
 			r.items = append(r.items, fmt.Sprintf("mkBev (BCancel 0) [mkRet 0 9 [] 0 0] false [] 0 [] (* %s *)", r.bad))
@@ -1738,7 +1763,7 @@ func runC03(a runArgs) error {
 	e := NewEmitter("C03", "Token.BwRun")
 	e.Preamble = "From GoCoap Require Import Token.Model Token.Spec Token.BwSpec."
 	e.ShardSize = 120
-	e.Rule = "event scripts on a real udp/client.Conn (in-memory session) and tcp/client.Conn (net.Pipe), block-wise on/off: 1-8 calls (Do with caller-chosen tokens, Get/Post with library tokens; CON/NON) issued one by one or as a burst of goroutines released together, answered in a random order piggybacked / after an empty ACK / before the ACK / as separate CON or NON, with retransmitted and re-sent duplicates, foreign tokens, cancellations, equal tokens (second call while the first is outstanding, bursts with one token, re-use after completion), the CRC-64-colliding token pair, 14 pairs of similar but distinct tokens (differing by trailing / leading zero bytes, length, one byte, byte order; both outstanding, foreign response, late response of a cancelled call, mixed burst), bursts of 2-4 calls with one token released together at the token table (a goroutine holds the table's lock until every caller is queued inside LoadOrStore), and sequential separate-response exchanges on a pooled connection whose empty-ACK write takes 300 us while the caller releases its response at once. Distinct = distinct script; non-trivial = at least two calls or one duplicate / foreign / cancel / equal-token event."
+	e.Rule = "event scripts on a real udp/client.Conn (in-memory session) and tcp/client.Conn (net.Pipe), block-wise on/off: 1-8 calls (Do with caller-chosen tokens, Get/Post with library tokens; CON/NON) issued one by one or as a burst of goroutines released together, answered in a random order piggybacked / after an empty ACK / before the ACK / as separate CON or NON, with retransmitted and re-sent duplicates, foreign tokens, cancellations, equal tokens (second call while the first is outstanding, bursts with one token, re-use after completion), the CRC-64-colliding token pair, 14 pairs of similar but distinct tokens (differing by trailing / leading zero bytes, length, one byte, byte order; both outstanding, foreign response, late response of a cancelled call, mixed burst), bursts of 2-4 calls with one token released together at the token table (a goroutine holds the table's lock until every caller is queued inside LoadOrStore), and sequential separate-response exchanges on a pooled connection whose empty-ACK write takes 300 us while the caller releases its response at once. Block-wise layer (cases replayed on Token/BwModel.v): a Do whose response arrives in 2-4 Block2 blocks with a second Do with its token before / between the blocks, bystanders, two interleaved transfers, duplicated and stale blocks, cancellation mid-transfer, re-use of the token (ub, tb, ubh1, tbh1), and on connections with the message pool on a block-wise download followed by 3-5 calls with distinct tokens answered in another order or all back to back while the callers keep their responses (tbh1, tbh, tbp, ubh1, ubp); these cases also record the block numbers asked for, the 4.08 written and the messages the receive path released. Distinct = distinct script; non-trivial = at least two calls or one duplicate / foreign / cancel / equal-token / block / back-to-back event."
 	emit := func(sc c3Script, fam string) {
 		if c3Hangs >= 3 && a.only == "" {
 			return // enough hung cases to report; do not spend the watchdog time on every further case
